@@ -10,9 +10,11 @@ functions are not computed; a block / transaction hash is an opaque identifier, 
 are assumed to carry distinct identifiers where a theorem says so). A transaction is the triple
 (hash, kind, reverted): `kind` encodes type and version and stands for the whole payload; JSON
 shaping of the payload is not modelled. A node is the list of stored blocks (oldest first) and
-the recorded L1 head number. The hash→number, tx-hash→(number, index) and per-contract history
-buckets of the database are modelled by search in that list (first match), which is what the
-buckets contain when block / transaction hashes are unique.
+the recorded L1 head number, plus the two index buckets the read path goes through: block hash →
+number and transaction hash → (number, index), written by `store` and deleted by `revert` the way
+`writeBlockContent` / `deleteBlockContent` do. That a lookup in these buckets is the same as a
+search in the chain is a THEOREM about histories (Props: `buckets_agree_with_chain`), not built in.
+The per-contract history buckets and the flat state are modelled by search in the list of diffs.
 
 The model follows the code as it is; the three API versions are one definition with a `Ver`
 parameter wherever the handlers differ.
@@ -58,6 +60,11 @@ structure Node where
   /-- the recorded L1 head is the zero struct `core.L1Head{}` (number 0, nil hash, nil root): then
   `l1 = some 0`, and `isL1Verified`'s test `l1 != core.L1Head{}` takes it for "no L1 head". -/
   l1Zero : Bool := false
+  /-- bucket block-hash → block number (`core.BlockHeaderNumbersByHash`): an association list,
+  newest write first, looked up by first match (= a map in which a later write overwrites). -/
+  numByHash : List (Nat × Nat) := []
+  /-- bucket transaction-hash → (block number, index) (`TransactionBlockNumbersAndIndicesByHash`). -/
+  txLoc : List (Nat × (Nat × Nat)) := []
 deriving Repr, DecidableEq, Inhabited
 
 inductive Ver | v8 | v9 | v10
@@ -138,9 +145,9 @@ def height (nd : Node) : Option Nat :=
 /-- `BlockByNumber` / `BlockHeaderByNumber`. -/
 def blockByNumber (nd : Node) (n : Nat) : Option Block := nd.chain[n]?
 
-/-- `BlockNumberByHash` (bucket block-hash → number). -/
+/-- `BlockNumberByHash`: a read of the bucket block-hash → number. -/
 def numberByHash (nd : Node) (h : Nat) : Option Nat :=
-  nd.chain.findIdx? (fun b => b.hash == h)
+  (nd.numByHash.find? (fun e => e.1 == h)).map (·.2)
 
 /-- `BlockByHash` / `BlockHeaderByHash`: number by hash, then block by number. -/
 def blockByHash (nd : Node) (h : Nat) : Option Block :=
@@ -164,12 +171,13 @@ def txCountByNumber (nd : Node) (n : Nat) : Option Nat :=
 def txByNumberAndIndex (nd : Node) (n i : Nat) : Option Tx :=
   (blockByNumber nd n).bind (fun b => b.txs[i]?)
 
-/-- Bucket tx-hash → (block number, index), as written by `Store` and deleted by `RevertHead`. -/
+/-- Specification of the tx-hash index: the first position in the chain holding the hash. -/
 def findTx (bs : List Block) (h : Nat) : Option (Nat × Nat) :=
   bs.findSome? (fun b => (b.txs.findIdx? (fun t => t.hash == h)).map (fun i => (b.number, i)))
 
-/-- `BlockNumberAndIndexByTxHash`. -/
-def numberAndIndexByTxHash (nd : Node) (h : Nat) : Option (Nat × Nat) := findTx nd.chain h
+/-- `BlockNumberAndIndexByTxHash`: a read of the bucket tx-hash → (number, index). -/
+def numberAndIndexByTxHash (nd : Node) (h : Nat) : Option (Nat × Nat) :=
+  (nd.txLoc.find? (fun e => e.1 == h)).map (·.2)
 
 /-- `TransactionByHash`. -/
 def txByHash (nd : Node) (h : Nat) : Option Tx :=
@@ -262,11 +270,29 @@ contract (`NewContractUpdater` / `getStateObject` fail with "contract not deploy
 def storageOk (nd : Node) (b : Block) : Bool :=
   b.diff.storage.all (fun e => isSystemContract e.1 || deployedIn (nd.chain ++ [b]) e.1)
 
-def store (nd : Node) (b : Block) : Option Node :=
-  if succeeds nd b && storageOk nd b then some { nd with chain := nd.chain ++ [b] } else none
+/-- The tx-hash index entries `writeBlockContent` writes for a block, in writing order. -/
+def txEntries (n : Nat) : Nat → List Tx → List (Nat × (Nat × Nat))
+  | _, [] => []
+  | i, t :: ts => (t.hash, (n, i)) :: txEntries n (i + 1) ts
 
+def store (nd : Node) (b : Block) : Option Node :=
+  if succeeds nd b && storageOk nd b then
+    some { nd with chain := nd.chain ++ [b],
+                   numByHash := (b.hash, b.number) :: nd.numByHash,
+                   -- (within one block the first entry of a hash is the one found; the real map
+                   -- would keep the last: the two agree when a block's tx hashes are distinct)
+                   txLoc := txEntries b.number 0 b.txs ++ nd.txLoc }
+  else none
+
+/-- `RevertHead` / `deleteBlockContent`: drops the head block and DELETES its hash key and the
+keys of its transactions from the index buckets. -/
 def revert (nd : Node) : Option Node :=
-  if nd.chain.isEmpty then none else some { nd with chain := nd.chain.dropLast }
+  match nd.chain.getLast? with
+  | none => none
+  | some b =>
+    some { nd with chain := nd.chain.dropLast,
+                   numByHash := nd.numByHash.filter (fun e => e.1 != b.hash),
+                   txLoc := nd.txLoc.filter (fun e => !(b.txs.any (fun t => t.hash == e.1))) }
 
 /-- `SetL1Head` (the revert path never touches the recorded L1 head). -/
 def setL1 (nd : Node) (l : Option Nat) : Node := { nd with l1 := l, l1Zero := false }
